@@ -333,6 +333,7 @@ impl Prop for C14Typed {
                 1 => gen::castle_theme().prop_map(|r| gen::build(&r).fen()),
                 1 => gen::ep_theme().prop_map(|r| gen::build(&r).fen()),
                 2 => gen::pre_terminal(),
+                1 => gen::smother_theme(),
             ],
             // mostly at or near the constructed position, sometimes deep into a game
             prop_oneof![
@@ -1208,6 +1209,8 @@ pub enum ROp {
     Reverse,
     Undo,
     Probe,
+    /// continue on a clone of the board: a copy carries the whole registration history
+    CloneBoard,
 }
 
 #[derive(Clone, Debug, Serialize, Deserialize)]
@@ -1249,6 +1252,7 @@ fn rep_ops(max: usize) -> BoxedStrategy<Vec<ROp>> {
             8 => Just(ROp::Reverse),
             2 => Just(ROp::Undo),
             1 => Just(ROp::Probe),
+            1 => Just(ROp::CloneBoard),
         ],
         2..max,
     )
@@ -1390,6 +1394,10 @@ impl Prop for C17Board {
                         chess_move_of(&m).undo(&mut board).map_err(|e| fail_pos(format!("undo failed: {:?}", e), &prev))?;
                         cur = prev;
                     }
+                }
+                ROp::CloneBoard => {
+                    board = board.clone();
+                    st.label("continued-on-a-clone");
                 }
                 ROp::Probe => {
                     let ms = board.max_seen_position_count() as u32;
